@@ -20,6 +20,8 @@ type SQLStmt struct {
 	Values   []string    // INSERT VALUES items
 	Upsert   [][2]string // ON CONFLICT DO UPDATE SET col = expr
 	Where    []string    // columns constrained in WHERE
+	// UpsertWhere: tokens of a WHERE that guards ON CONFLICT DO UPDATE (nil = unconditional)
+	UpsertWhere []string
 	WhereRaw string
 	Params   int // number of ? placeholders
 }
@@ -567,6 +569,9 @@ func ParseSQL(raw string) (SQLStmt, bool) {
 					}
 				}
 				break
+			}
+			if up(i) == "WHERE" {
+				st.UpsertWhere = append([]string{}, toks[i+1:]...)
 			}
 		}
 		return st, true
